@@ -10,6 +10,7 @@
 //	       at a protocol point (schedule hook before Chunks().WaitForNewData); oracle: the event is returned well
 //	       before the time-out; nothing written => empty after the time-out.
 //	rearm: a pipe worker whose 10 s wait expires with a notification pending.
+//	select: the real client's stream reader (api.Select) through the rpc client, see select.go.
 package main
 
 import (
@@ -20,6 +21,7 @@ import (
 	"sort"
 	"strconv"
 	"sync"
+	"sync/atomic"
 	"time"
 
 	"github.com/logrange/logrange/api"
@@ -464,7 +466,12 @@ type WaitCase struct {
 	Scen   string `json:"scen"`   // WsBefore | WsHeld | WsSleeping | WsLateFlush | WsNone
 	Chain  int    `json:"chain"`  // further back-to-back waits (each woken by a write while asleep)
 	Limit  int    `json:"limit"`  // page limit of the waiting request (0: 10); values above QueryMaxLimit are clamped by the server
+	Rotate bool   `json:"rotate"` // the back-to-back waits write to the next partition in turn (every partition of the reader is written to when Chain >= Parts-1)
 }
+
+// spins counts waiting queries that never returned (a reader that is woken but re-reads EOF spins between WaitNewData and
+// Get; the query is then cancelled). After a few the wait stream stops starting new chains.
+var spins int32
 
 const waitTimeoutS = 5
 
@@ -475,16 +482,23 @@ type qres struct {
 }
 
 func query(srv *Server, req *api.QueryRequest) chan qres {
+	ch, _ := queryC(srv, req)
+	return ch
+}
+
+// queryC: the request runs under a context that can be cancelled (a waiting query that spins is ended by it)
+func queryC(srv *Server, req *api.QueryRequest) (chan qres, context.CancelFunc) {
 	ch := make(chan qres, 1)
+	ctx, cancel := context.WithCancel(context.Background())
 	go func() {
 		t0 := time.Now()
-		r, err := srv.Querier.Query(context.Background(), req)
+		r, err := srv.Querier.Query(ctx, req)
 		if err == io.EOF {
 			err = nil
 		}
 		ch <- qres{r, err, time.Since(t0)}
 	}()
-	return ch
+	return ch, cancel
 }
 
 var latMu sync.Mutex
@@ -522,14 +536,18 @@ func runWait(srv *Server, wc WaitCase) ([]Case, error) {
 	}
 	var out []Case
 	written := wc.N0
-	tsrc := srcs[wc.Target]
+	target := wc.Target
 	step := func(scen string, timeout int) error {
+		if atomic.LoadInt32(&spins) >= 2 {
+			return errStop
+		}
+		tsrc := srcs[target]
 		nreq := next
 		nreq.WaitTimeout = timeout
 		gs := make([]*gate, wc.Parts)
 		gMu.Lock()
 		for k, s := range srcs {
-			gs[k] = &gate{hold: (scen == "WsHeld" || scen == "WsLateFlush") && k == wc.Target, arrived: make(chan struct{}, 1), release: make(chan struct{})}
+			gs[k] = &gate{hold: (scen == "WsHeld" || scen == "WsLateFlush") && k == target, arrived: make(chan struct{}, 1), release: make(chan struct{})}
 			gates[s] = gs[k]
 		}
 		gMu.Unlock()
@@ -541,12 +559,13 @@ func runWait(srv *Server, wc WaitCase) ([]Case, error) {
 			gMu.Unlock()
 		}()
 		if scen == "WsBefore" {
-			if err := writeN(srv, tagsOf(wc.Target), written, 1); err != nil {
+			if err := writeN(srv, tagsOf(target), written, 1); err != nil {
 				return err
 			}
 			syncSrc(srv, tsrc)
 		}
-		ch := query(srv, &nreq)
+		ch, cancel := queryC(srv, &nreq)
+		defer cancel()
 		var tWrite time.Time
 		if scen != "WsBefore" {
 			// every waiter goroutine reached the schedule point
@@ -560,7 +579,7 @@ func runWait(srv *Server, wc WaitCase) ([]Case, error) {
 						n = len(r.res.Events)
 					}
 					v := &Violation{Class: "reader-does-not-wait-on-every-partition", Detail: fmt.Sprintf("%s over %d partition(s): the query returned (%d events after %v, err %v) and never started a wait on partition %d", scen, wc.Parts, n, r.dur, r.err, k)}
-					out = append(out, Case{Coq: GApp("KFan", GNat(wc.Parts), GNat(wc.Target), GNat(written), scen, "false", GNat(n)), Replay: map[string]interface{}{"kind": "wait", "wait": wc},
+					out = append(out, Case{Coq: GApp("KFan", GNat(wc.Parts), GNat(target), GNat(written), scen, "false", GNat(n)), Replay: map[string]interface{}{"kind": "wait", "wait": wc},
 						Oracle: v, Stream: "wait", Key: fmt.Sprintf("%s/%d/%s/early", id, len(out), scen)})
 					return errStop
 				case <-time.After(deadline):
@@ -571,19 +590,19 @@ func runWait(srv *Server, wc WaitCase) ([]Case, error) {
 		switch scen {
 		case "WsHeld":
 			// readable between the position capture and the check-and-register
-			writeN(srv, tagsOf(wc.Target), written, 1)
+			writeN(srv, tagsOf(target), written, 1)
 			syncSrc(srv, tsrc)
 			tWrite = time.Now()
-			close(gs[wc.Target].release)
+			close(gs[target].release)
 		case "WsSleeping":
 			// let the waiter register and block (no observable for it; if it has not yet, this is WsHeld)
 			time.Sleep(20 * time.Millisecond)
-			writeN(srv, tagsOf(wc.Target), written, 1)
+			writeN(srv, tagsOf(target), written, 1)
 			syncSrc(srv, tsrc)
 			tWrite = time.Now()
 		case "WsLateFlush":
-			writeN(srv, tagsOf(wc.Target), written, 1)
-			close(gs[wc.Target].release)
+			writeN(srv, tagsOf(target), written, 1)
+			close(gs[target].release)
 			time.Sleep(20 * time.Millisecond)
 			syncSrc(srv, tsrc)
 			tWrite = time.Now()
@@ -592,7 +611,30 @@ func runWait(srv *Server, wc WaitCase) ([]Case, error) {
 		select {
 		case r = <-ch:
 		case <-time.After(deadline + time.Duration(timeout)*time.Second):
-			return fmt.Errorf("wait case %s: query did not return at all", scen)
+			// the query neither returned the event nor timed out: a verdict (e.g. a reader that is woken but re-reads EOF
+			// spins between WaitNewData and Get). It is cancelled; the cancelled request must then come back.
+			atomic.AddInt32(&spins, 1)
+			cancel()
+			ended := "the cancelled request returned"
+			select {
+			case <-ch:
+			case <-time.After(deadline):
+				ended = "the request did not return after its context was cancelled either"
+			}
+			what := "nothing was written"
+			if scen != "WsNone" {
+				what = fmt.Sprintf("the event written to partition %d was never returned", target)
+			}
+			v := &Violation{Class: "reader-not-woken", Detail: fmt.Sprintf("%s over %d partition(s): %s and the query with WaitTimeout %d s did not return within %v (%s)", scen, wc.Parts, what, timeout, deadline+time.Duration(timeout)*time.Second, ended)}
+			var coq string
+			if wc.Parts == 1 {
+				coq = GApp("KWait", GNat(written), scen, "false", GNat(0))
+			} else {
+				coq = GApp("KFan", GNat(wc.Parts), GNat(target), GNat(written), scen, "false", GNat(0))
+			}
+			out = append(out, Case{Coq: coq, Replay: map[string]interface{}{"kind": "wait", "wait": wc}, NonTrivial: true,
+				Oracle: v, Stream: "wait", Key: fmt.Sprintf("%s/%d/%s/noreturn", id, len(out), scen), Tags: []string{"wait:" + scen, fmt.Sprintf("wait-parts:%d", wc.Parts)}})
+			return errStop
 		}
 		if r.err != nil {
 			return fmt.Errorf("wait case %s: query error %v", scen, r.err)
@@ -610,7 +652,7 @@ func runWait(srv *Server, wc WaitCase) ([]Case, error) {
 			want := strconv.Itoa(written)
 			switch {
 			case !woken:
-				v = &Violation{Class: "reader-not-woken", Detail: fmt.Sprintf("%s over %d partition(s): the event written to partition %d was not returned within the %d s time-out (query took %v)", scen, wc.Parts, wc.Target, timeout, r.dur)}
+				v = &Violation{Class: "reader-not-woken", Detail: fmt.Sprintf("%s over %d partition(s): the event written to partition %d was not returned within the %d s time-out (query took %v)", scen, wc.Parts, target, timeout, r.dur)}
 			case nev != 1 || r.res.Events[0].Message != want:
 				v = &Violation{Class: "reader-wrong-event", Detail: fmt.Sprintf("%s: expected event %q, got %d events (first %q)", scen, want, nev, r.res.Events[0].Message)}
 			}
@@ -625,7 +667,7 @@ func runWait(srv *Server, wc WaitCase) ([]Case, error) {
 		if wc.Parts == 1 {
 			coq = GApp("KWait", GNat(written), scen, GBool(woken), GNat(nev))
 		} else {
-			coq = GApp("KFan", GNat(wc.Parts), GNat(wc.Target), GNat(written), scen, GBool(woken), GNat(nev))
+			coq = GApp("KFan", GNat(wc.Parts), GNat(target), GNat(written), scen, GBool(woken), GNat(nev))
 		}
 		out = append(out, Case{Coq: coq, Replay: map[string]interface{}{"kind": "wait", "wait": wc}, NonTrivial: scen != "WsBefore" && scen != "WsNone" || wc.Parts > 1,
 			Oracle: v, Stream: "wait", Key: fmt.Sprintf("%s/%d/%s", id, len(out), scen), Tags: []string{"wait:" + scen, fmt.Sprintf("wait-parts:%d", wc.Parts)}})
@@ -648,6 +690,9 @@ func runWait(srv *Server, wc WaitCase) ([]Case, error) {
 		return nil, err
 	}
 	for i := 0; i < wc.Chain; i++ {
+		if wc.Rotate {
+			target = (target + 1) % wc.Parts
+		}
 		if err := step([]string{"WsSleeping", "WsHeld", "WsLateFlush"}[i%3], waitTimeoutS); err != nil {
 			if err == errStop {
 				return out, nil
@@ -672,6 +717,11 @@ func genWait(r *Rng) WaitCase {
 		wc.Chain = r.PickInt(0, 0, 1, 2, 3)
 	}
 	wc.Limit = r.PickInt(0, 0, 1, 10, 9999, 10000, 10001, 50000)
+	if wc.Parts >= 3 && wc.Scen != "WsNone" && r.Chance(1, 2) {
+		// every partition of the reader in turn (with >= 3 partitions the cursor has nested mixers)
+		wc.Rotate = true
+		wc.Chain = wc.Parts - 1 + r.Intn(2)
+	}
 	return wc
 }
 
@@ -763,7 +813,7 @@ func runRearm(srv *Server, rc RearmCase) (*Case, error) {
 
 // ---------------------------------------------------------------- main
 
-const rule = "read: journal iterator read to its end in 1-3 rounds over 0-8 readable records from a random start position, with 0-3 append+flush injections placed before random looks at the confirmed count and 0-3 records appended between rounds (non-trivial iff an injection fell inside a round); wait: Query(WaitTimeout) at the end of 1-4 partitions with the write placed before the query / between position capture and check-and-register (schedule hook) / after the waiter is asleep / written while held and flushed after registration / never, followed by 0-3 back-to-back waits (non-trivial iff the write races the wait or several partitions are under the reader); rearm: pipe worker's 10 s wait expiring with a notification pending"
+const rule = "read: journal iterator read to its end in 1-3 rounds over 0-8 readable records from a random start position, with 0-3 append+flush injections placed before random looks at the confirmed count and 0-3 records appended between rounds (non-trivial iff an injection fell inside a round); wait: Query(WaitTimeout) at the end of 1-4 partitions with the write placed before the query / between position capture and check-and-register (schedule hook) / after the waiter is asleep / written while held and flushed after registration / never, followed by 0-3 back-to-back waits (non-trivial iff the write races the wait or several partitions are under the reader); rearm: pipe worker's 10 s wait expiring with a notification pending; select: api.Select in stream mode from tail through the rpc client, 2-4 rounds with records appended in the gap before a request / while it waits, up to two empty (timed-out) rounds (non-trivial iff an empty round is followed by appended records)"
 
 type replayT struct {
 	Kind  string     `json:"kind"`
@@ -771,6 +821,7 @@ type replayT struct {
 	Wait  *WaitCase  `json:"wait"`
 	Rearm *RearmCase `json:"rearm"`
 	Range *RangeCase `json:"range"`
+	Select *SelectCase `json:"select"`
 }
 
 func main() {
@@ -807,6 +858,12 @@ func main() {
 					return err
 				}
 				c.Add(*cs)
+			case "select":
+				cs, err := runSelect(srv, *rp.Select)
+				if err != nil {
+					return err
+				}
+				c.Add(*cs)
 			case "rearm":
 				cs, err := runRearm(srv, *rp.Rearm)
 				if err != nil {
@@ -829,6 +886,24 @@ func main() {
 				rearm[i], rerr[i] = runRearm(srv, rc)
 			}(i)
 		}
+		// select cases run in the background too (an empty round costs the 1 s time-out of its wait); first the witness of
+		// C11_select_resend_refuted: an empty wait, then a record appended in the gap before the next request
+		ns := c.N(8)
+		sels := make([]*Case, ns)
+		serr := make([]error, ns)
+		sjobs := make([]SelectCase, ns)
+		for i := range sjobs {
+			sjobs[i] = genSelect(c.Rng.Fork())
+		}
+		sjobs[0] = SelectCase{N0: 3, Rounds: [][2]int{{0, 0}, {1, 0}, {0, 0}}}
+		if ns > 1 {
+			sjobs[1] = SelectCase{N0: 1, Rounds: [][2]int{{0, 0}, {0, 1}, {2, 0}, {0, 0}}}
+		}
+		wg.Add(1)
+		go func() {
+			defer wg.Done()
+			Parallel(ns, 4, func(i int) { sels[i], serr[i] = runSelect(srv, sjobs[i]) })
+		}()
 		// corpus: the witness of C11_no_skip_refuted on the implementation (3 readable, reader at 3, a flush of 2
 		// between the end-of-data decision and the position it is left with)
 		corpus := ReadCase{N0: 3, P0: 3, Rounds: 2, Inj: []Inject{{At: 2, K: 2}}}
@@ -871,6 +946,13 @@ func main() {
 		for i := range jobs {
 			jobs[i] = genWait(c.Rng.Fork())
 		}
+		// always: a reader over 3 and over 4 partitions (nested mixers) at the end of all of them, every partition
+		// written to in turn in a chain of back-to-back waits
+		jobs = append([]WaitCase{
+			{Parts: 3, Target: 0, N0: 1, Scen: "WsSleeping", Chain: 3, Rotate: true},
+			{Parts: 4, Target: 1, N0: 0, Scen: "WsHeld", Chain: 4, Rotate: true},
+		}, jobs...)
+		nw = len(jobs)
 		res := make([][]Case, nw)
 		errs := make([]error, nw)
 		Parallel(nw, 8, func(i int) { res[i], errs[i] = runWait(srv, jobs[i]) })
@@ -888,6 +970,12 @@ func main() {
 				return rerr[i]
 			}
 			c.Add(*rearm[i])
+		}
+		for i := range sels {
+			if serr[i] != nil {
+				return serr[i]
+			}
+			c.Add(*sels[i])
 		}
 		latMu.Lock()
 		if len(latencies) > 0 {
